@@ -386,7 +386,7 @@ def canon_impl(lines):
         elif w[0] == "h":
             sizes, rest = l[1:].split("|")
             kv = dict(x.split("=", 1) for x in rest.split())
-            errs = [("badfree" if e.startswith("badfree") else e) for e in kv.get("errs", "").split(",") if e]
+            errs = [("badfree" if e.startswith("badfree") else "wrongarena" if e.startswith("wrongarena") else e) for e in kv.get("errs", "").split(",") if e]
             cur["h"] = {"sizes": sizes.split(), "allocs": kv["allocs"], "nullfree": kv["nullfree"], "errs": errs}
         elif w[0] == "end":
             ops.append({"end": dict(x.split("=", 1) for x in w[1:])})
